@@ -956,10 +956,66 @@ func C17() *engine.Check {
 	return &engine.Check{
 		Property: "C17",
 		Level:    "model_checking",
-		Subs:     []*engine.Sub{c17RoundtripSub(), c17CountSub(), c17SizeSub(), c17PrivateSub(), c17BigBadSub(), c17CorruptSub(), c17WrongCidSub(), c17RawCarSub(), carLabelSub("C17"), c17SeqSub(), c17ConcSub(), concRaceSub("C17")},
+		Subs:     []*engine.Sub{c17RoundtripSub(), c17CountSub(), c17SizeSub(), c17PrivateSub(), c17BigBadSub(), c17CorruptSub(), c17WrongCidSub(), c17RawCarSub(), carLabelSub("C17"), c17LongIDSub(), c17SeqSub(), c17ConcSub(), concRaceSub("C17")},
 		Assumptions: []string{
 			"token pool of 4 sealed tokens (3 signature algorithms): every subset in every insertion order; plus sets of n distinct Ed25519 delegations for every n up to 40 and around 128 and 256",
 			"the CBOR container format does not store CIDs, so a wrong CID given to AddSealed is invisible there; only CAR readers can and must detect a CID that does not hash to the data",
+		},
+	}
+}
+
+// ---- principals with the longest identifiers ----
+
+type c17LongIDCase struct {
+	Format  string `json:"format"`
+	WStream bool   `json:"w_stream"`
+	RStream bool   `json:"r_stream"`
+}
+
+func c17LongIDSub() *engine.Sub {
+	return &engine.Sub{
+		Name:  "longest-identifiers",
+		Rule:  "a container holding a delegation whose audience is the did:key of an RSA-8192 public key (about 1430 characters, the longest identifier the DID package produces) next to two ordinary tokens, written and read in the four formats x byte-slice / stream variants: the reader holds exactly the tokens added (what the library writes it reads); non-trivial = all",
+		Bound: func(string) string { return "4 formats x 2 writers x 2 readers" },
+		Gen: func(tier string, emit func(any) bool) {
+			for _, f := range []string{"car", "car64", "cbor", "cbor64"} {
+				for _, ws := range []bool{false, true} {
+					for _, rs := range []bool{false, true} {
+						if !emit(&c17LongIDCase{f, ws, rs}) {
+							return
+						}
+					}
+				}
+			}
+		},
+		NewCase: func() any { return &c17LongIDCase{} },
+		Run: func(ctx *engine.Ctx, c any) {
+			cs := c.(*c17LongIDCase)
+			names := []string{"dlg", "dlgrsa8k", "inv"}
+			w := container.NewWriter()
+			for _, n := range names {
+				t := ioToken(n)
+				w.AddSealed(t.Cid, t.Sealed)
+			}
+			data, err := writeContainer(w, cs.Format, cs.WStream)
+			ctx.States(1)
+			ctx.Nontrivial(1)
+			ctx.Eval(1)
+			ctx.Trans(1)
+			if err != nil {
+				ctx.Failf(cs, "write-fails/"+cs.Format, "writing a container with a long identifier fails: %v", err)
+				return
+			}
+			r, err := readContainer(data, cs.Format, cs.RStream)
+			if err != nil {
+				ctx.Outcome("read-fails")
+				ctx.Failf(cs, "read-fails/long-identifier/"+cs.Format, "a container the library wrote (a delegation addressed to an RSA-8192 did:key) cannot be read back (r-stream=%v): %v", cs.RStream, err)
+				return
+			}
+			ctx.Outcome("ok")
+			if containerView(r) != expectedSetView(names) {
+				ctx.Failf(cs, "wrong-set/long-identifier/"+cs.Format, "reading back gives a different set")
+			}
 		},
 	}
 }
